@@ -76,6 +76,7 @@ REQUIRED = [
     'EdbVerif.C09.reuse_fixed_is_pickle', 'EdbVerif.C09.protocol_refines_reuse',
     'EdbVerif.C09.reuse_script_counterexample_poolBuggy',
     'EdbVerif.C09.detached_rescue', 'EdbVerif.C09.detached_later_savepoint_counterexample',
+    'EdbVerif.C09.client_state_settled', 'EdbVerif.C09.client_state_after_rollback_to_counterexample',
 ]
 
 E = immutables.Map()
@@ -1009,6 +1010,12 @@ class PG2:
     def step(self, stmt: str, cf: bool, bf) -> str:
         """returns the outcome class: ok / rej / failed.  bf: 0 no backend failure, 1 the backend
         fails, 2 the backend fails and stays inside the block (matters for COMMIT)"""
+        cs, stmt = split_cs(stmt)
+        if cs is not None:      # the client's session state: what this statement must be compiled with
+            if self.in_tx:
+                self.cur = (self.cur[0], self.cur[1], cs[0], cs[1])
+            else:
+                self.base = (self.base[0], self.base[1], cs[0], cs[1])
         if '; ' in stmt:        # a script with transaction control in it: refused as a whole
             if self.in_tx:
                 self.failed = True
@@ -1089,6 +1096,16 @@ class PG2:
         return 'ok'
 
 
+def split_cs(stmt: str):
+    """`@a,v <statement>`: the client sends the session state (aliases a, config v) along with the
+    statement (binary protocol: every Execute carries the state; dbview.decode_state installs it)"""
+    if stmt.startswith('@'):
+        head, rest = stmt.split(' ', 1)
+        a, v = head[1:].split(',')
+        return (int(a), int(v)), rest
+    return None, stmt
+
+
 def classify_uncovered(evs, upto: int, transport: str = 'p') -> str | None:
     """Which feature for which the real code is KNOWN to diverge from the spec occurs in evs[:upto+1]
     (None = the real code is expected to agree: the proved envelope, plus COMMIT / ROLLBACK failing in
@@ -1096,9 +1113,14 @@ def classify_uncovered(evs, upto: int, transport: str = 'p') -> str | None:
     pg = PG2((0, 0, 0, 0))
     cls = None
     mark = None       # number of frames right after the last accepted ROLLBACK TO of this block
-    for (stmt, cf, bf) in evs[:upto + 1]:
+    pending = False   # an accepted ROLLBACK TO whose sync_to_savepoint has not happened yet
+    for (stmt0, cf, bf) in evs[:upto + 1]:
+        cs, stmt = split_cs(stmt0)
         w = stmt.split(' ')
         healthy = pg.in_tx and not pg.failed
+        if cs is not None and pending and pg.in_tx:
+            # session differences are applied before sync_tx and overwritten by sync_to_savepoint
+            cls = cls or 'client-state-after-rollback-to'
         if healthy and '; ' not in stmt and ((w[0] == 'C' and bf == 2) or (w[0] == 'R' and bf)) \
                 and mark is not None and len(pg.frames) > mark:
             # detaching failure while a savepoint declared after the server's savepoint id is alive:
@@ -1117,13 +1139,18 @@ def classify_uncovered(evs, upto: int, transport: str = 'p') -> str | None:
                     gone = {n for n, _ in pg.frames[i:]}
                     if gone & {n for n, _ in pg.frames[:i]}:
                         cls = cls or 'release-shadowed'
-        r = pg.step(stmt, cf, bf)
+        r = pg.step(stmt0, cf, bf)
         if not pg.in_tx:
             mark = None
+            pending = False
         elif w[0] == 'B' and r == 'ok' and '; ' not in stmt:
             mark = len(pg.frames)
-        elif mark is not None:
-            mark = min(mark, len(pg.frames))
+            pending = True
+        else:
+            if mark is not None:
+                mark = min(mark, len(pg.frames))
+            if r != 'rej':
+                pending = False
     return cls
 
 
@@ -1142,6 +1169,12 @@ def run_l2(env: Env, case):
         # the payload the statement is compiled against: read off the real state right after
         # compile_in_tx's sync (by the parse_block stand-in, which runs exactly there)
         probe.clear()
+        raw = stmt
+        cs, stmt = split_cs(stmt)
+        if cs is not None:          # dbview.decode_state(): the client's state goes into the view
+            sim.set_modaliases(CODEC.mk_aliases(cs[0]))
+            sim.set_session_config(CODEC.mk_config(cs[1]))
+            exposed = (exposed[0], exposed[1], cs[0], cs[1])
         parts = stmt.split('; ')
         if len(parts) > 1 and not sim._in_tx:
             outs.append('unmodelled')
@@ -1156,13 +1189,19 @@ def run_l2(env: Env, case):
         if unit is not None and unit.tx_id is not None:
             T0 = unit.tx_id - 1
         against = probe[0] if probe else None
-        e = pg.step(stmt, cf, bf)
+        e = pg.step(raw, cf, bf)
         cls = outcome.split(':')[0]
         if cls != e:
-            bad.append((i, f'step {i} {stmt!r}: outcome {outcome}, PostgreSQL-style spec says {e}'))
+            bad.append((i, f'step {i} {raw!r}: outcome {outcome}, PostgreSQL-style spec says {e}'))
         elif cls in ('ok', 'failed') and not was_failed and against is not None and against != exposed:
-            bad.append((i, f'step {i} {stmt!r}: compiled against {against}, a PostgreSQL-style '
+            bad.append((i, f'step {i} {raw!r}: compiled against {against}, a PostgreSQL-style '
                            f'transaction exposes {exposed}'))
+        elif cls == 'ok' and unit is not None and unit.modaliases is not None \
+                and tok_aliases(unit.modaliases) != pg.exposed()[2]:
+            # what the unit reports to the frontend as the session's module aliases after the statement
+            # (COMMIT / ROLLBACK / ROLLBACK TO / SET ALIAS / CONFIGURE): must be the spec's
+            bad.append((i, f'step {i} {raw!r}: the unit reports aliases {tok_aliases(unit.modaliases)} to the '
+                           f'frontend, a PostgreSQL-style session has {pg.exposed()[2]} after this statement'))
         ag = '-' if against is None else ','.join(map(str, against))
         un = '-' if unit is None else show_unit(unit, T0)
         cs = '-'
@@ -1240,13 +1279,27 @@ def gen_l2_random(rng, n_cases, maxlen, covered: bool):
         evs, tag = [], 10
         pf = rng.choice([0.0, 0.05, 0.15])
         pdet = rng.choice([0.0, 0.3, 0.6])
+        pnest = rng.choice([0.0, 0.04, 0.1])     # nested savepoints with alias / config changes between
+        pcs = rng.choice([0.0, 0.0, 0.05, 0.15])  # the client sends a changed session state along
         pg = PG2((0, 0, 0, 0))
         detached = 0          # > 0: right after a detaching failure, prefer tx / savepoint statements
         queue = []
+        forced_name = None
         for _ in range(ln):
             for _try in range(20):
+                if not queue and pg.in_tx and not pg.failed and rng.random() < pnest:
+                    a, b = rng.sample(['1', '2', '3'], 2) if len(names) > 1 else ('1', '1')
+                    queue += [('D ' + a, False, 0), (rng.choice(['A', 'F']), False, 0), ('D ' + b, False, 0)]
+                    if rng.random() < 0.5:
+                        queue.append((rng.choice(['A', 'F', 'U']), False, 0))
+                    queue += [('B ' + a, False, 0), (rng.choice(['Q', 'U', 'F']), False, 0),
+                              (rng.choice(['Q', 'A', 'C', 'D ' + b]), False, 0)]
                 if queue:
                     k, cf, bf = queue.pop(0)
+                    if ' ' in k:
+                        k, forced_name = k.split(' ')
+                    else:
+                        forced_name = None
                 elif detached > 0:
                     k = rng.choices(['B', 'D', 'C', 'S', 'R', 'Q', 'L'], weights=[6, 3, 2, 2, 2, 1, 1])[0]
                     cf = bf = False
@@ -1259,15 +1312,18 @@ def gen_l2_random(rng, n_cases, maxlen, covered: bool):
                     if rng.random() < pf and k in ('UAFQCR' if covered else 'UAFQCRSDL'):
                         bf = rng.choice([1, 2]) if k == 'C' else 1
                 if k in 'DLB':
-                    s = f'{k} {rng.choice(names)}'
+                    s = f'{k} {forced_name or rng.choice(names)}'
                 elif k == 'U':
                     s = f'U {tag + 2} {tag + 3}'
                 elif k in 'AF':
                     s = f'{k} {tag + 1}'
                 else:
                     s = k
+                forced_name = None
+                if pcs and rng.random() < pcs:
+                    s = f'@{tag + 1},{tag + 2} ' + s
                 healthy = pg.in_tx and not pg.failed
-                if k == 'B' and pg.in_tx and pg.failed and pg.find(s.split(' ')[1]) is None and detached:
+                if k == 'B' and pg.in_tx and pg.failed and pg.find(split_cs(s)[1].split(' ')[1]) is None and detached:
                     # the model's backend never refuses a statement by itself: a ROLLBACK TO of a name
                     # PostgreSQL does not have, sent through the `_try_compile_rollback` escape, would be
                     # refused by the real backend only (see notes: outside the model)
@@ -1281,7 +1337,7 @@ def gen_l2_random(rng, n_cases, maxlen, covered: bool):
             was_healthy = pg.in_tx and not pg.failed
             r = pg.step(s, cf, bf)
             evs.append((s, cf, bf))
-            w0 = s[0]
+            w0 = split_cs(s)[1][0]
             if was_healthy and r == 'failed' and ((w0 == 'C' and bf == 2) or w0 == 'R'):
                 detached = rng.randint(1, 3) + 1
             elif not pg.in_tx or not pg.failed:
@@ -1325,6 +1381,7 @@ def gen_l2_bridge(rng, n_cases, ddl_budget):
     for (t, pl, evs) in srcs:
         out = []
         for (stmt, cf, bf) in evs:
+            cs, stmt = split_cs(stmt)
             parts = []
             for st in stmt.split('; '):
                 w = st.split(' ')
@@ -1337,7 +1394,8 @@ def gen_l2_bridge(rng, n_cases, ddl_budget):
                     else:
                         st = 'Q'
                 parts.append(st)
-            out.append(('; '.join(parts), cf, bf))
+            pre = '' if cs is None else f'@{cs[0] % len(MODS)},{cs[1]} '
+            out.append((pre + '; '.join(parts), cf, bf))
         yield (t, pl, out)
 
 
@@ -1370,6 +1428,7 @@ WITNESSES = {
     'fault-declare': [('S', 0, 0), ('D 1', 0, 0), ('B 1', 0, 0), ('U 5 6', 0, 0), ('D 1', 0, 1),
                       ('B 1', 0, 0), ('Q', 0, 0)],
     'fault-start': [('S', 0, 1), ('Q', 0, 0)],
+    'client-state-after-rollback-to': [('S', 0, 0), ('D 1', 0, 0), ('B 1', 0, 0), ('@7,4 Q', 0, 0), ('Q', 0, 0)],
     'detached-later-savepoint': [('S', 0, 0), ('D 1', 0, 0), ('B 1', 0, 0), ('Q', 0, 0), ('D 2', 0, 0), ('C', 0, 2),
                                  ('B 2', 0, 0)],
 }
@@ -1405,12 +1464,13 @@ def detached_stats(evs):
     pg = PG2((0, 0, 0, 0))
     rb_to = det = False
     n_det = n_st = n_b = 0
-    for (stmt, cf, bf) in evs:
+    for (stmt0, cf, bf) in evs:
+        _, stmt = split_cs(stmt0)
         healthy = pg.in_tx and not pg.failed
         if det:
             n_st += 1
             n_b += stmt[0] == 'B'
-        r = pg.step(stmt, cf, bf)
+        r = pg.step(stmt0, cf, bf)
         if not pg.in_tx:
             rb_to = det = False
         elif stmt[0] == 'B' and r == 'ok':
